@@ -44,6 +44,7 @@ func (x *Ext) Summarize(fn *ssa.Function, args []*Term, free []*Term) *Summary {
 		}
 	}
 	x.purify(sum)
+	x.splitReturns(sum)
 	sum.Top.Events(func(e *Event, _ []*LoopS) { sum.NEvents++ })
 	sum.Top.AllLoops(func(l *LoopS) { sum.NLoops++ })
 	sum.Undecided = append(sum.Undecided, x.Und...)
